@@ -132,6 +132,10 @@ def monitor(cb, impl):
                 hits.append(("an infoset is missing from a named view (player %d)" % (pl + 1), "missing"))
                 continue
             for (info, acts), r0, r1 in zip(multi[pl + 1], r_before, r_after):
+                if not all(math.isfinite(x) and x >= 0 for x in r0 + r1) or abs(sum(r0) - 1.0) > 1e-9 or abs(sum(r1) - 1.0) > 1e-9:
+                    hits.append(("in a sequence of truncations, infoset %s of player %d is not a distribution: %r -> truncate(%r) -> %r"
+                                 % (info, pl + 1, r0, hh, r1), "invalid-seq"))
+                    continue
                 above = [p > hh for p in r0]
                 if any(above):
                     tot = sum(p for p, a in zip(r0, above) if a)
@@ -175,6 +179,43 @@ def monitor(cb, impl):
                 hits.append(("infoset %s of player %d: truncating twice differs from once: %r vs %r (thresh %r)"
                              % (info, pl + 1, r2, r1, h), "not-idempotent"))
     return hits
+
+
+def _boundary(rows, h):
+    """some stored probability is within a few ulps of the threshold: whether it 'exceeds h' is decided by the last
+    bits of the normalisation, which no property constrains"""
+    return any(x != 0.0 and abs(x - h) <= 8 * 2.0 ** -52 * max(abs(h), abs(x)) for r in rows for x in r)
+
+
+def not_judged(cb, impl, dis):
+    """Model and implementation are compared op by op.  The model divides and sums in the code's order, so on the
+    unchanged code they agree bit for bit; a harmless rewrite of a summation moves probabilities by an ulp, and a
+    threshold that sits within a few ulps of a stored probability (the generator aims thresholds AT the entries) then
+    selects a different support on the two sides.  From the first such truncation on, the model/implementation diff
+    of this case is not judged; the monitor, which reads only the implementation's own views, still is."""
+    ops = impl.get("ops") or []
+    multi, _ = infosets_of(cb.tree)
+    steps = [(1, cb.meta["thresh"], 3), (3, cb.meta["thresh"], 5)] + list(cb.meta.get("steps", []))
+    first = None
+    for before, h, after in steps:
+        if before >= len(ops) or "ok" not in ops[before]:
+            continue
+        for pl in (0, 1):
+            rows = _rows_from_named(ops[before]["ok"][pl]["items"], multi[pl + 1]) or []
+            if _boundary(rows, h):
+                first = after - 1 if first is None else min(first, after - 1)
+    if first is None:
+        return dis
+    kept = []
+    for kind, text in dis:
+        try:
+            k = int(text.split()[1])
+        except Exception:
+            kept.append((kind, text))
+            continue
+        if k < first:
+            kept.append((kind, text))
+    return kept
 
 
 def nontrivial(cb, impl):
